@@ -59,8 +59,27 @@ template<int H> void run(const char* hn) {
     report(id, okA && okB, explicit_e ? "C08,C09,C13" : "C08,C13", "A=" + std::to_string(gotA) + " B=" + std::to_string(gotB) + " expectedB=" + std::to_string(expB) + " (initB=" + std::to_string(initB) + " lastB=" + std::to_string(lastB) + ")");
   }
 }
+// first-ever entry of the submachine through a HISTORY event (nothing to remember yet): every region starts in its initial state
+template<int H> struct TopF_ : state_machine_def<TopF_<H>> {
+  typedef SubBE<H> Sub;
+  struct Out : state<> {};
+  typedef Out initial_state;
+  struct transition_table : mpl::vector< Row<Sub,leave,Out,none,none>, Row<Out,resume,Sub,none,none>, Row<Out,plain,Sub,none,none> > {};
+  template<class F,class Ev> void no_transition(Ev const&,F&,int){}
+};
+template<int H> void run_first(const char* hn) {
+  typedef BE<TopF_<H>> Top; typedef typename TopF_<H>::Sub Sub;
+  Top ref; ref.start(); ref.process_event(plain()); Sub& rs = ref.template get_state<Sub&>(); int initA = cur(rs,0), initB = cur(rs,1);
+  Top m; m.start(); m.process_event(resume()); Sub& s = m.template get_state<Sub&>();
+  report(std::string(hn) + ".first-entry-by-history-event", cur(s,0) == initA && cur(s,1) == initB, "C08,C03,C13",
+         "A=" + std::to_string(cur(s,0)) + " B=" + std::to_string(cur(s,1)) + " initial=" + std::to_string(initA) + "," + std::to_string(initB));
+  // ... and what is remembered afterwards is that (correct) configuration
+  m.process_event(leave()); m.process_event(resume());
+  report(std::string(hn) + ".first-entry-by-history-event.remembered", cur(s,0) == initA && cur(s,1) == initB, "C08,C13", "A=" + std::to_string(cur(s,0)) + " B=" + std::to_string(cur(s,1)));
+}
 int main(int argc, char** argv) {
   if (argc > 1) g_only = argv[1];
   run<H_NO>("no"); run<H_ALWAYS>("always"); run<H_SHALLOW>("shallow");
+  run_first<H_NO>("no"); run_first<H_ALWAYS>("always"); run_first<H_SHALLOW>("shallow");
   return finish();
 }
